@@ -547,7 +547,8 @@ class ComparisonReporter:
 
     def _report_transform_processing_times(self, baseline_stats, contender_stats):
         lines = []
-        if baseline_stats.total_transform_processing_times is None:
+        # races stored before transform metrics were introduced have none of them, on either side
+        if baseline_stats.total_transform_processing_times is None or contender_stats.total_transform_processing_times is None:
             return lines
         for baseline in baseline_stats.total_transform_processing_times:
             transform_id = baseline["id"]
